@@ -48,7 +48,7 @@ def run_histories(chk, name, histories, key_fn, shard=40):
                 chk.broken_obligation('driver error on history %d (%s): %r' % (i, mode, e))
                 continue
             cases.append(term)
-            meta.append((i, mode, coro))
+            meta.append((i, mode, coro, results))
             key = key_fn(cfg, ops, results)
             chk.count(1, key, {'mode': mode, 'ops': [repr(o)[:100] for o in ops[:10]]} if i < 2 and mode == 'sync' else None)
         for o in ops:
@@ -59,7 +59,7 @@ def run_histories(chk, name, histories, key_fn, shard=40):
     chk.traces_validated += len(cases)
     for e in errors:
         chk.broken_obligation('case evaluation failed: ' + e)
-    return [(meta[idx][0], meta[idx][1], meta[idx][2], code, cases[idx]) for idx, code in sorted(codes.items())]
+    return [(meta[idx][0], meta[idx][1], meta[idx][2], code, cases[idx], meta[idx][3]) for idx, code in sorted(codes.items())]
 
 
 def where(code):
@@ -77,7 +77,7 @@ def eval_terms(name, terms):
 
 def shrink(name, cfg, ops, mode, coro, keep, budget=14):
     """Delta debugging; every round's candidates are evaluated in ONE coqc call.
-    keep(code, cand_ops, term) decides whether a candidate still shows the failure."""
+    keep(code, cand_ops, results) decides whether a candidate still shows the failure."""
     cur = list(ops)
     chunk = max(1, len(cur) // 2)
     rounds = 0
@@ -89,10 +89,10 @@ def shrink(name, cfg, ops, mode, coro, keep, budget=14):
             if not cand:
                 continue
             try:
-                _, term = run_one(cfg, cand, mode, coro)
+                res, term = run_one(cfg, cand, mode, coro)
             except Exception:
                 continue
-            cands.append(cand)
+            cands.append((cand, res))
             terms.append(term)
         if not terms:
             break
@@ -101,8 +101,8 @@ def shrink(name, cfg, ops, mode, coro, keep, budget=14):
         except RuntimeError:
             break
         hit = None
-        for cand, code, term in zip(cands, codes, terms):
-            if keep(code, cand, term):
+        for (cand, res), code in zip(cands, codes):
+            if keep(code, cand, res):
                 hit = cand
                 break
         if hit is not None:
@@ -118,10 +118,10 @@ def shrink(name, cfg, ops, mode, coro, keep, budget=14):
 def report(chk, name, hs, bad, classify, max_sigs=6):
     """One shrunk replay per distinct signature."""
     seen, where_seen = {}, {}
-    for i, mode, coro, code, term in bad:
+    for i, mode, coro, code, term, results in bad:
         cfg, ops, _ = hs[i]
         if code & 2:
-            sig = classify(name, cfg, ops, term, code)
+            sig = classify(name, cfg, ops, results, code)
         else:
             sig = '%s-%s-correspondence' % (name, mode)
         where_seen.setdefault(sig, set()).add('Client' if mode == 'sync' else 'AsyncClient')
@@ -131,9 +131,9 @@ def report(chk, name, hs, bad, classify, max_sigs=6):
         cfg, ops, _ = hs[i]
         want_prop = bool(code & 2)
 
-        def keep(c, cand, term, sig=sig, want_prop=want_prop, cfg=cfg):
+        def keep(c, cand, res, sig=sig, want_prop=want_prop, cfg=cfg):
             if want_prop:
-                return bool(c & 2) and classify(name, cfg, cand, term, c) == sig
+                return bool(c & 2) and classify(name, cfg, cand, res, c) == sig
             return bool(c & 1)
         try:
             small = ops if os.environ.get('VERIF_NOSHRINK') else shrink(name, cfg, ops, mode, coro, keep)
@@ -185,23 +185,38 @@ WITNESS_ROOT_REFUSAL = (CFG_W, [('connect', ['/', '/a'], None, False, False, Fal
                                 ('emit', 'x', None, '/a', None), ('disconnect',)], {})
 
 
-def classify(name, cfg, ops, term, code):
+def classify(name, cfg, ops, results, code):
+    """Structural class of a property failure: the first failing operation, its failed clauses and what the
+    implementation's state looks like after it.  The three named classes are the findings of notes/C08-C09.md;
+    anything else gets a generic `c08-<clauses>-<operation>` signature."""
     i, mask = where(code)
     o = ops[i] if i < len(ops) else ('?',)
-    if o[0] == 'connect' and o[4]:
-        if client_hist.window_has_disconnect_after_connect(o):
+    effs, _, dump = results[i] if i < len(results) else ([], None, {'namespaces': [], 'connected': False})
+    listed = [n for n, _ in dump['namespaces']]
+    if o[0] == 'connect' and o[4] and mask & (8 | 16):
+        # (i) a namespace the server ended inside the wait window (CONNECT then DISCONNECT) is still listed
+        seen, ended = set(), set()
+        for p in o[6]:
+            t, ns = client_hist.packet_kind(p)
+            if t == 0:
+                seen.add(ns)
+                ended.discard(ns)
+            elif t == 1 and ns in seen:
+                ended.add(ns)
+        if any(n in listed for n in ended):
             return 'disconnect-inside-connect-window-ignored'
-        if client_hist.window_partial(o) and mask & (16 | 32):
+        # (d) connect() raised ConnectionError but namespaces accepted in the window are still listed
+        if ('Raised', 'ConnectionError') in effs and listed:
             return 'partial-acceptance-leaves-namespaces'
-    if o[0] == 'msg' and mask & 16:
-        # wait=False: CONNECT_ERROR('/') cleared `connected`, a later CONNECT repopulates `namespaces`
+    if o[0] == 'msg' and mask == 16 and client_hist.packet_kind(o[1])[0] == 0 and not dump['connected'] and listed:
+        # wait=False: CONNECT_ERROR('/') cleared `connected`, this CONNECT repopulates `namespaces`
         refused_root = False
         for p in ops[:i]:
             if p[0] == 'connect':
                 refused_root = False
             if p[0] == 'msg' and client_hist.packet_kind(p[1]) == (4, '/'):
                 refused_root = True
-        if refused_root and client_hist.packet_kind(o[1])[0] == 0:
+        if refused_root:
             return 'root-refusal-then-accept-leaves-connected-false'
     return 'c08-%s-%s' % (clause_names(mask), o[0])
 
@@ -263,3 +278,32 @@ def run(chk):
 
 def replay(chk, data):
     return replay_common(chk, data, 'c08')
+
+
+# ---------------------------------------------------------------------------------------
+# C14 (asyncio == threaded): the Client / AsyncClient pair
+# ---------------------------------------------------------------------------------------
+def _flat_trace(results):
+    """Effects and state dump of every operation as one flat list of plain values."""
+    out = []
+    for i, (effs, _, d) in enumerate(results):
+        out.append(('op', i))
+        for e in effs:
+            out.append((e[0],) + tuple(tuple(x) if isinstance(x, tuple) and e[0] in ('Call', 'CbCall') else x for x in e[1:]))
+        out.append(('state', d['connected'], tuple((n, v) for n, v in d['namespaces']),
+                    tuple((n, nxt, tuple(ids)) for n, nxt, ids in d['callbacks']), d['binpkt_none'], d['sid'], d['eio']))
+    return out
+
+
+def parity_traces(rng, n):
+    """For property C14: n generated client histories (every 7th from the malformed stream), each executed on
+    socketio.Client and on socketio.AsyncClient (coroutine handlers / callbacks on every other history).
+    Returns [(kind, scenario_repr, trace_sync, trace_async)], kind = 'client'."""
+    k = client_hist.Knobs(n_ops=22)
+    items = []
+    for j in range(n):
+        cfg, ops, _ = client_hist.gen_malformed(rng, k) if j % 7 == 6 else client_hist.gen_history(rng, k)
+        rs = cli.run_history(cfg, ops, 'sync', False)
+        ra = cli.run_history(cfg, ops, 'async', j % 2 == 0)
+        items.append(('client', repr((cfg, ops)), _flat_trace(rs), _flat_trace(ra)))
+    return items
